@@ -126,6 +126,7 @@ def judge(ctx, runs, name, devlevel_split=True):
 
 def run(ctx: Ctx) -> int:
     q = ctx.quick
+    session.clause_reachability(ctx, "C06")
     session.mc(ctx, 3, 2, name="C06_mc_v3_allhs", calls=2, hs="HSAll", data="DataSome", coverage=True)
     if not q:
         session.mc(ctx, 3, 2, name="C06_mc_v3_c3", calls=3, hs="HSAll", data="DataSome", keys=4, timeout=3400, heap="12g")
